@@ -10,7 +10,7 @@ PROPS = {
             "PutState(k, empty) at the ledger is a delete (Fabric); nil and empty values are one observation",
         ],
         "hypotheses": [],
-        "not_modelled": ["InvokeChaincode result cache of BatchCacheStub (covered under C04)", "range queries (bypass the cache by design)"],
+        "not_modelled": ["InvokeChaincode result cache of BatchCacheStub (covered under C04)", "range queries (bypass the cache by design)", "failing ledger reads are handled by the driver around the model (a read that reaches the ledger fails and caches nothing), not inside Cache.step and its theorems"],
         "assumptions": ["range/iterator reads are outside the statement (point operations only)"],
     },
 }
@@ -22,7 +22,7 @@ PROPS["C02"] = {
     "level_note": "Trusted: Lean kernel + 3 standard axioms; decimal length 13 <-> 10^12<=n<10^13 is proved (is13_iff_decimal_length, over Lean's Nat.toDigits 10; strconv.FormatUint is trusted to be the decimal representation); protobuf round-trip of proto.Nonce; one sender <-> one composite key; legacy single-integer nonce encoding excluded; the model is the hand transcription checked by the differential run.",
     "trusted_base": ["core/nonce.go setNonce/checkNonce modelled by Nonce.setNonce/stepMulti", "strconv.FormatUint(n,10) is the decimal representation Nat.toDigits 10 n (length law proved: is13_iff_decimal_length)", "proto.Nonce marshal/unmarshal round-trip"],
     "hypotheses": ["stored windows were produced by setNonce from the empty window (legacy single-integer records excluded)"],
-    "not_modelled": ["legacy nonce decoding branch of checkNonce", "NBTx/immediate route (nonce not checked there by design of the code; property quantifies over batches and task lists)"],
+    "not_modelled": ["legacy nonce decoding (a stored single-integer record is modelled as that one accepted nonce, op `legacy`; the byte-level fallback decision of proto.Unmarshal is not)", "NBTx/immediate route (nonce not checked there by design of the code; property quantifies over batches and task lists)"],
     "assumptions": ["Fabric delivers unique tx ids; ACL maps a key to one address"],
 }
 
@@ -73,7 +73,7 @@ PROPS["C11"] = {
     "level_note": "Trusted: Lean kernel + 3 axioms; x509/ECDSA parsing; response classes are derived from error texts (coarse); the model is the hand transcription of Invoke/TasksExecutor after fix bbe070f checked by the differential run; issuer/fee-setter role checks are outside this property.",
     "trusted_base": ["core/cc_core_init_invoke.go Invoke switch modelled by Dispatch.invoke; skeleton facts re-extracted per run", "hlfcreator (x509 parsing) modelled as abstract Creator"],
     "hypotheses": [],
-    "not_modelled": ["execution of an already pending record whose method was disabled afterwards (not among the three routes of the statement)"],
+    "not_modelled": ["execution of an already pending record whose method was disabled afterwards is not among the three routes of the statement; the code executes and consumes it (exercised under C05, op `disable`)"],
     "assumptions": [],
 }
 
@@ -124,7 +124,7 @@ PROPS["C04"] = {
     "level_note": "Trusted: Lean kernel + 3 axioms; Go's recover semantics; nonce bookkeeping on the batch level is covered under C02; accounting records are compared as multisets; bodies are the harness token's script language (incl. the library's TokenBalanceTransfer) - other library methods are covered through C06/C13/C19 which run inside batches.",
     "trusted_base": ["core/cc_batch.go, task_executor.go modelled by Batch.txProg/batchProg/taskProg over the C12 cache model"],
     "hypotheses": [],
-    "not_modelled": ["swap/multi-swap sections of a batch (C08/C09)", "InvokeChaincode result cache", "tracing pairs"],
+    "not_modelled": ["InvokeChaincode result cache", "tracing pairs", "the decoding of stored swap records inside the robot's items is executable model code, not proved (string codec)"],
     "assumptions": [],
 }
 PROPS["C05"] = {
@@ -153,7 +153,7 @@ PROPS["C08"] = {
     "level_note": "Trusted: Lean kernel + 3 axioms; sha3 preimage resistance (keys are right/wrong); platform and robot obey the stated protocol (hypothesis `allowed`); swap ids of begun swaps are not re-used after they finished (Fabric tx ids; the task route lets callers pick ids - re-use of an open id is refused since fix c149971); robot completion called on the destination copy is outside the protocol and not modelled.",
     "trusted_base": ["core/bc_swap.go, core/swap/swap.go modelled by Foundation.Swap.step; protocol by Swap.allowed"],
     "hypotheses": ["robot: answers an origin record at most once, with its exact content; closes the origin only with a key published by a destination completion", "platform: cancels the origin only after a successful destination cancel of the same id (doc/swap.md rules 3-4)", "ids of new swaps carry no completion/cancellation history"],
-    "not_modelled": ["RobotDone invoked on the destination copy", "swap timeouts (not checked by the code)", "OnSwapDoneEvent listener"],
+    "not_modelled": ["RobotDone invoked on the destination copy is outside the protocol model (robot content off protocol); the whole-batch model FBATCH executes it as the code does", "swap timeouts (not checked by the code)", "OnSwapDoneEvent listener"],
     "assumptions": [],
 }
 
@@ -163,7 +163,7 @@ PROPS["C09"] = {
     "level_note": "Trusted: Lean kernel + 3 axioms; sha3 preimage resistance; committed-read semantics of a real peer as implemented by the simulated peer; per-group value conservation over both channels is proved for asset lists naming each group once (group_value_conserved_partial, no_gain_partial, released_in_full, refunded_in_full) and monitored by the judge on the implementation's dumps for all lists. Known findings (not repaired: protocol-level): cancel_then_done, dup_group_direct.",
     "trusted_base": ["core/bc_multiswap.go, core/multiswap/multiswap.go modelled by Foundation.MultiSwap.step (two read semantics)"],
     "hypotheses": ["release_once_partial: the origin is cancelled only when no answered copy exists or can still be created (robot abandoned the id)", "group_value_conserved_partial: every begin lists each group once and does not re-use the id of a released swap (the repeated-group case is the proved counterexample dup_group_direct)"],
-    "not_modelled": ["RobotDone on the destination copy", "OnMultiSwapDoneEvent listener"],
+    "not_modelled": ["RobotDone on the destination copy is outside the protocol model; the whole-batch model FBATCH executes it as the code does", "OnMultiSwapDoneEvent listener"],
     "assumptions": [],
 }
 
